@@ -12,9 +12,9 @@ class C09(Prop):
     harness_sub = "c09"
     case_imports = ["Moc.Match", "Moc.Merge"]
     sizes = {"quick": 2000, "thorough": 60000}
-    gen_names = ("g_merge_too_few", "g_ok_not_ready", "g_count_not_ready", "g_ok_has_slot", "g_ok_setmsg_absent",
-                 "g_ok_ready_absent", "g_ok_msg_absent", "g_ok_is_accepted", "g_ok_any_rejected",
-                 "g_cnt_set_absent", "g_cnt_ready_absent", "handler.go")
+    gen_names = ("g_merge_too_few", "g_ok_not_ready", "g_count_not_ready", "g_ok_no_slot", "g_ok_setmsg_drop",
+                 "g_ok_clear_done", "g_ok_ready_absent", "g_ok_msg_absent", "g_ok_is_accepted", "g_ok_any_rejected",
+                 "g_cnt_no_slot", "g_cnt_set_drop", "g_cnt_clear_done", "g_cnt_ready_absent", "handler.go")
     rule = ("histories for the real NewMergeHandler with 2-4 scripted children, one message in flight at a time: 1-5 "
             "EVENT/COUNT requests (ids from 3 event ids / 2 subscription ids, re-used one after the other), up to 4 in "
             "flight, every child answers every request once (FIFO per child and id) with random verdict, prefix, text "
@@ -22,8 +22,8 @@ class C09(Prop):
             "18% of the steps are REQ traffic (client REQ / CLOSE, child EOSE) mostly under the id of an EVENT or COUNT "
             "in flight or of the COUNT id universe (a CLOSE or REQ must not disturb the aggregation); first, in every "
             "tier, 276 enumerated histories: one EVENT/COUNT, n=2,3, each reply order, a client CLOSE resp. REQ with "
-            "the same id inserted at every position, with no / a finished / a pending subscription of that id; the last n/100 (8..40) histories may re-use an id that is still in flight (finding "
-            "K1) and comes last so that failures of the guarded class are met first; non-trivial = an aggregated reply "
+            "the same id inserted at every position, with no / a finished / a pending subscription of that id; 40% of the "
+            "random histories may re-use an id that is still in flight (the class of the repaired finding K1); non-trivial = an aggregated reply "
             "was produced from children that disagreed; distinct = distinct JSON of the inputs")
     trusted_base = COMMON_TRUSTED + [
         "the scripted-children driver harness/cmd/core/merge_driver.go (sentinel protocol: per-child FIFO through "
@@ -32,13 +32,13 @@ class C09(Prop):
         "memory model",
     ]
     assumptions = [
-        "child indices are in range (trace_ok); every child answers each request once, in the order of the requests "
-        "it received for that id",
-        "guard no_overlap: no two requests with the same event id / COUNT subscription id are in flight at once; "
-        "without it the statement is refuted (C09_ok_exactly_one_refuted, C09_count_exactly_one_refuted; finding K1)",
+        "child indices are in range (trace_ok); answers_in_order: every child answers each request once and answers "
+        "requests carrying the same id in the order of their submission (its j-th reply for an id answers the j-th "
+        "request with that id); the oracle theorem C09_model_satisfies_oracle needs trace_ok only",
         "'first rejecting child' = lowest child index (DESIGN.md section 9)",
     ]
-    signatures = {"same_id_in_flight": mc.same_id_in_flight}
+    # finding K1 (same id in flight) is repaired: no signature is in use, such histories are judged like all others
+    signatures = {}
 
     def to_coq(self, I, c):
         return mc.ccase(I, c)
